@@ -459,15 +459,17 @@ def do_nest(spec, rec, rng):
     for n in range(spec["n"]):
         kind = rng.choice(["hex", "hexcu", "cart"])
         pitch = 10 ** rng.uniform(0, 2)
+        # the number of rings only says how many locations a grid builds ahead of time (the rest are made on demand): it must not
+        # change what a grid *is* - in particular a one-ring radial grid is still a radial grid
         top = composites.Composite("top")
         core = composites.Composite("core")
         top.add(core)
         if kind == "cart":
-            core.spatialGrid = grids.CartesianGrid.fromRectangle(pitch, pitch, numRings=3, isOffset=rng.random() < .5, armiObject=core)
+            core.spatialGrid = grids.CartesianGrid.fromRectangle(pitch, pitch, numRings=rng.choice([1, 1, 2, 3, 5]), isOffset=rng.random() < .5, armiObject=core)
             cxy = lambda i, j: tuple(core.spatialGrid.getCoordinates((i, j, 0))[:2])  # judged in do_cart
         else:
             cu = kind == "hexcu"
-            core.spatialGrid = grids.HexGrid.fromPitch(pitch, numRings=3, cornersUp=cu, armiObject=core)
+            core.spatialGrid = grids.HexGrid.fromPitch(pitch, numRings=rng.choice([1, 1, 2, 3, 5]), cornersUp=cu, armiObject=core)
             cxy = lambda i, j, cu=cu: hex_xy(i, j, pitch, cu)
         coreOffset = None
         if rng.random() < .4:
@@ -510,7 +512,7 @@ def do_nest(spec, rec, rng):
                         rec.violation("nest/global-base-top", "global base %s top %s" % (list(gb), list(gt)), w)
                     # third level: pin grid in block: indices must NOT add; coordinates must
                     ppitch = pitch / 10
-                    b.spatialGrid = grids.HexGrid.fromPitch(ppitch, numRings=2, armiObject=b) if kind != "cart" else grids.CartesianGrid.fromRectangle(ppitch, ppitch, numRings=2, armiObject=b)
+                    b.spatialGrid = grids.HexGrid.fromPitch(ppitch, numRings=rng.choice([1, 1, 2, 3]), armiObject=b) if kind != "cart" else grids.CartesianGrid.fromRectangle(ppitch, ppitch, numRings=rng.choice([1, 1, 2, 3]), armiObject=b)
                     pi_, pj = rng.randint(-3, 3), rng.randint(-3, 3)
                     pin = composites.Composite("pin")
                     pin.spatialLocator = b.spatialGrid[pi_, pj, 0]
@@ -551,7 +553,7 @@ def do_nest(spec, rec, rng):
                 sub = composites.Composite("sub")
                 sub.spatialLocator = core.spatialGrid[i, j, 0] if False else core.spatialGrid[i + 7, j - 7, 0]
                 core.add(sub)
-                sub.spatialGrid = grids.HexGrid.fromPitch(pitch / 7, numRings=2, armiObject=sub) if kind != "cart" else grids.CartesianGrid.fromRectangle(pitch / 7, pitch / 7, numRings=2, armiObject=sub)
+                sub.spatialGrid = grids.HexGrid.fromPitch(pitch / 7, numRings=rng.choice([1, 1, 2, 3]), armiObject=sub) if kind != "cart" else grids.CartesianGrid.fromRectangle(pitch / 7, pitch / 7, numRings=rng.choice([1, 1, 2, 3]), armiObject=sub)
                 p_, q_ = rng.randint(-2, 2), rng.randint(-2, 2)
                 leaf2 = composites.Composite("leaf2")
                 leaf2.spatialLocator = sub.spatialGrid[p_, q_, 0]
